@@ -53,6 +53,8 @@ def label_equal(label, value):
     try:
         if isinstance(value, tuple):
             lab = tuple(float(x) for x in (label.tolist() if isinstance(label, np.ndarray) else label))
+            while len(lab) > len(value) and lab[-1] != lab[-1]:
+                lab = lab[:-1]          # vectors of different lengths share one axis: the shorter ones are NaN-padded
             return lab == value
         if isinstance(label, np.ndarray):
             if label.size != 1:
